@@ -245,7 +245,11 @@ func (e *Exec) convert(v Value, from, to types.Type) Value {
 			case fint && tb.Kind() == types.String:
 				t := v.(*Term)
 				if !t.Const {
-					e.unsupported("string(symbolic rune)")
+					// ASCII runes render as one byte; anything else needs UTF-8 encoding of a symbolic value
+					if !e.Branch(tt.ULt(t, tt.BVConst(0x80, t.S.W))) {
+						panic(pathEnd{"cut", "non-ASCII symbolic rune in string(rune)"})
+					}
+					return e.mkStr([]*Term{tt.Extract(t, 7, 0)})
 				}
 				r := rune(sext(t.U, t.S.W))
 				if !fsigned {
